@@ -8,7 +8,7 @@ from . import detsched, progs
 from .common import Violation
 
 KINDS = ('stp', 'lpm', 'pf', 'pm', 'pf2')
-EXCS = ('VErrA', 'VErrB', 'VErrC', 'VBase', 'IndexError', 'VFalsy')
+EXCS = ('VErrA', 'VErrB', 'VErrC', 'VBase', 'IndexError', 'FilterException', 'VFalsy')
 
 
 class Trace:
